@@ -806,7 +806,10 @@ def run(ctx):
     try:
         allres = lib.run_tasks(tasks + ctasks + ptasks, timeout=ctx.pick(60, 150), jobs=10)
         tm["polar"] = round(time.time() - t0, 1)
-        ores_all = pending.get(timeout=1500)
+        try:
+            ores_all = pending.get(timeout=ctx.pick(900, 3000))
+        except Exception as e:  # noqa   (a lost oracle process: nothing can be compared, nothing is alarmed)
+            ores_all = [{"oracle_error": f"oracle pool: {type(e).__name__}"}] * (len(okeys) + len(pjobs))
     finally:
         pool.terminate()
     tm["polar_and_oracle"] = round(time.time() - t0, 1)
